@@ -59,6 +59,11 @@ func init() {
 			}
 			return nil
 		},
+		"math/rand.Seed":             func(ex *Exec, _ *ssa.Function, a []Value, _ ssa.Instruction) Value { ex.reseeds++; return nil },
+		"golang.org/x/exp/rand.Seed": func(ex *Exec, _ *ssa.Function, a []Value, _ ssa.Instruction) Value { ex.reseeds++; return nil },
+		"time.Now":                   func(ex *Exec, _ *ssa.Function, a []Value, _ ssa.Instruction) Value { return ex.zero(timeType(ex)) },
+		"(time.Time).Unix":           func(ex *Exec, _ *ssa.Function, a []Value, _ ssa.Instruction) Value { return int64(1700000000) },
+		"(time.Time).UnixNano":       func(ex *Exec, _ *ssa.Function, a []Value, _ ssa.Instruction) Value { return int64(1700000000000000000) },
 		"math/rand.Float64": func(ex *Exec, _ *ssa.Function, a []Value, _ ssa.Instruction) Value {
 			return ex.draw("uniform", F{T: ex.b.Rat(ratZero)}, F{T: ex.b.Rat(ratOne)})
 		},
@@ -1072,6 +1077,9 @@ var vrtIntrinsics = map[string]intrinsicFn{
 	"Concurrently": func(ex *Exec, _ *ssa.Function, a []Value, _ ssa.Instruction) Value {
 		return nil
 	},
+	"Reseeds": func(ex *Exec, _ *ssa.Function, a []Value, _ ssa.Instruction) Value {
+		return int64(ex.reseeds)
+	},
 	"Steps": func(ex *Exec, _ *ssa.Function, a []Value, _ ssa.Instruction) Value {
 		return ex.steps
 	},
@@ -1142,6 +1150,17 @@ func occurs(needle, t *Term, budget int) bool {
 		stack = append(stack, x.args...)
 	}
 	return false
+}
+
+func timeType(ex *Exec) types.Type {
+	for _, p := range ex.prog.AllPackages() {
+		if p.Pkg.Path() == "time" {
+			if t := p.Type("Time"); t != nil {
+				return t.Type()
+			}
+		}
+	}
+	panic(&GoPanic{Kind: "unsupported", Msg: "time.Time not loaded"})
 }
 
 func stripIdx(name string) string {
